@@ -38,7 +38,7 @@ META = dict(
     stubs=['CutFile: concrete bytes, symbolic length'] + c04.META['stubs'],
     assumptions=c04.META['assumptions'],
     buckets=dict(all=['cut-in-leadin', 'cut-in-metadata', 'cut-in-data', 'cut-at-segment-end', 'complete-file',
-                      'partial-chunk-values-kept']),
+                      'partial-chunk-values-kept', 'cut-in-metadata-of-segment-without-raw-data']),
     replays_per_signature=4,
     validate_samples=12,
 )
@@ -54,6 +54,16 @@ def family(tier, seed):
         fam.append(sh)
     if tier != 'thorough':
         fam = [sh for i, sh in enumerate(fam) if i % 2 == 0 or len(sh) == 1 or any(s.get('inter') for s in sh)]
+    # segments that hold no raw data (properties only / zero values / no-data objects), in the middle and at the end
+    A, B = c04.A, c04.B
+    P1, P2 = ['n', 3, 77], ['txt', 0x20, 'zwölf°']
+    d0 = s1.seg([[A, 'full', 3, 2], [B, 'full', 2, 1]], 2)
+    fam.append([d0, s1.seg([['/', 'nodata', 0, 0, [P1]], ["/'g'", 'nodata', 0, 0, [P2]]], 1, raw_flag=False)])
+    fam.append([d0, s1.seg([[A, 'nodata', 3, 0, [P2, P1]]], 1, newobj=False)])
+    fam.append([d0, s1.seg([[A, 'full', 3, 0, [P1]], [B, 'full', 2, 0]], 1)])
+    fam.append([d0, s1.seg([["/'g'", 'nodata', 0, 0, [P1, P2]]], 1, newobj=False, raw_flag=False),
+                s1.seg([[A, 'full', 3, 3]], 2)])
+    fam.append([s1.seg([['/', 'nodata', 0, 0, [P2]]], 1, raw_flag=False), d0, s1.seg([[B, 'nodata', 2, 0, [P1]]], 1)])
     return fam
 
 
@@ -172,6 +182,8 @@ def run_task(task):
                 ctx.note('cut-in-leadin')
             if ctx.check(z3.And(c >= s['start'] + 28, c < s['data_start'])):
                 ctx.note('cut-in-metadata')
+                if s['end'] == s['data_start']:
+                    ctx.note('cut-in-metadata-of-segment-without-raw-data')
             if s['end'] > s['data_start'] and ctx.check(z3.And(c > s['data_start'], c < s['end'])):
                 ctx.note('cut-in-data')
                 got = len(res['eager'][c04.A][0]) + len(res['eager'][c04.B][0])
